@@ -142,4 +142,22 @@ PROPS = {
              "rewrite body/imports/docs of every other file keeping package, name and kind; the digest of the target's result "
              "(tree + diagnostics incl. messages) must not change; kind changes of imported files are run as negative control and counted",
              x_checks=["perturb"], post=gens.post_C13),
+    "C20": P(["Model/Diag.v", "Proofs/Diag.v", "Properties/C20.v"], [],
+             gens.gen_C20,
+             "hand-picked error points + for each generated document 6 token-level prefixes followed by nothing / one / two tokens of the "
+             "full vocabulary (incl. unlexable characters) and 3 token-level mutations; for every syntax error that carries an "
+             "expectation vector (hook) the names read back from the message are compared with the vector (sizes 0-15); a case is "
+             "non-trivial when distinct",
+             runs=[("parse", "P", ["spec_C20", "corr_C20"])],
+             assumptions=["the formatter model (Model/Diag.v) corresponds to expected_token_str: checked on every message of the run",
+                          "the expectation vector is the one recorded by the verif-hooks recorder in from_parse_error",
+                          "KNOWN FINDING: names are dropped for vectors of 3 or more (theorem C20_known); only that exact class is tolerated"]),
+    "C19": P(["Model/SerdeBase.v", "Gen/SerdeSpec.v", "Model/Serde.v", "Proofs/Serde.v", "Properties/C19.v"], [],
+             lambda rng, tier: gens.gen_projects(rng, tier, 800, 10000),
+             "hand-picked + random multi-file projects (all type kinds incl. resolved items and built-ins, all optional fields present "
+             "and absent, oneway methods, annotations with parameters, docs, values); every tree straight from parsing and after "
+             "validation goes through ron::to_string / ron::from_str and is compared with ==; the Coq model round-trips the same trees",
+             runs=[("serde", "S", ["corr_C19"])], x_checks=["serde"],
+             assumptions=["the model stops at serde's data model: serde_derive's expansion and the RON text layer are modelled / exercised, not verified",
+                          "field attributes are regenerated from src/ast.rs on every run (translate/serde_attrs.py)"]),
 }
